@@ -96,6 +96,18 @@ def _case(draw, tier):
     # related operations: with probability 1/2 the second thread repeats the first thread's first operation
     if draw(st.booleans()):
         threads[1][0] = list(threads[0][0])
+    if draw(st.integers(0, 7)) == 0:
+        # hot reload next to a running call: one thread re-decorates a class of an already decorated module and name (beartype then
+        # clears all of its caches), the other one calls a wrapper whose forward reference is resolved already, or runs another
+        # operation without an identity result; the first thread is preempted after every one of its first 40 / 200 yield points
+        first = draw(st.one_of(
+            st.just(['fwdcall']), st.just(['fwdcall']),
+            st.tuples(st.just('is_bearable'), _hint_index, st.integers(0, len(VALUES) - 1), st.booleans()).map(list),
+            st.tuples(st.just('decorate_call'), _hint_index, st.integers(0, len(VALUES) - 1), st.integers(0, 1)).map(list)))
+        threads = [[first], [['redecorate']]]
+        if draw(st.booleans()):
+            threads = threads[::-1]
+        return {'threads': threads, 'mode': 'sweep', 'stride': 1, 'offset': draw(st.integers(0, 3)), 'points': 40 if tier == 'quick' else 200}
     if draw(st.integers(0, 2)) == 0:
         # sync-point sweep: the first thread is preempted right after its returns from functions of SYNC_FILES - evenly spread over
         # all of them (stride = ceil(#points / budget), drawn offset) - and the other threads run to completion in between. Both
@@ -220,6 +232,14 @@ def _run_ops(ops, shared, keep, U, prefix):
                 beartype_package(prefix + 'shared.' + w, conf=BeartypeConf(
                     claw_skip_package_names=(prefix + 'shared.' + w + '.skip',), hint_overrides=FrozenDict({U: typing.Union[U, bytes]})))
                 out.append(['val', 'ok'])
+            elif k == 'fwdcall':
+                # a decorated function whose forward reference was resolved by an earlier call (see _prepare)
+                _WARM[U](U())
+                out.append(['val', 'ok'])
+            elif k == 'redecorate':
+                # a class of an already decorated module and name (hot reload): beartype clears its caches
+                bt(type('Reloaded', (), {'__module__': 'c15dyn'}))
+                out.append(['val', 'ok'])
             elif k == 'getconf':
                 c = get_package_conf_or_none(prefix + op[1])
                 out.append(['val', None if c is None else sorted((k2, repr(v2)) for k2, v2 in c.kwargs.items()
@@ -241,11 +261,38 @@ def _fresh():
     return U, 'c15pkg%d.' % n
 
 
+_WARM = {}
+
+
+def _prepare(U, threads):
+    """Sequential prelude of a run whose threads use 'fwdcall' / 'redecorate': a function annotated by a forward reference that is
+    undefined when it is decorated, then defined and resolved by a first call; a decorated class named c15dyn.Reloaded."""
+    if not any(op[0] in ('fwdcall', 'redecorate') for t in threads for op in t):
+        return
+    import sys
+    import types
+    from beartype import beartype as bt
+    mod = sys.modules.get('c15dyn') or sys.modules.setdefault('c15dyn', types.ModuleType('c15dyn'))
+    name = 'Later%d' % _RUN[0]
+    bt(type('Reloaded', (), {'__module__': 'c15dyn'}))   # (before the first call below: from the second run on this clears the caches)
+
+    def f(p):
+        return 1
+    f.__module__ = 'c15dyn'
+    f.__annotations__ = {'p': 'c15dyn.' + name}
+    g = bt(f)
+    setattr(mod, name, U)
+    g(U())
+    _WARM.clear()
+    _WARM[U] = g
+
+
 def _one_run(threads, schedule, trace_prefix):
     """One concurrent run under ``schedule`` (None = sequential reference in thread order 0,1,.. and all permutations)."""
     U, pfx = _fresh()
     shared = [_hint(h, U) for h in HINTS]
     keep = []
+    _prepare(U, threads)
     s = sched.Scheduler(len(threads), schedule, trace_prefix, OPCODE_FILES, step_timeout=15.0, sync_files=SYNC_FILES)
     s.run([(lambda ops=ops: _run_ops(ops, shared, keep, U, pfx)) for ops in threads])
     if not (s.deadlock or s.timeout):
@@ -264,6 +311,7 @@ def _sequential(threads, order):
     U, pfx = _fresh()
     shared = [_hint(h, U) for h in HINTS]
     keep = []
+    _prepare(U, threads)
     res = [None] * len(threads)
     for t in order:
         res[t] = _run_ops(threads[t], shared, keep, U, pfx)
